@@ -100,7 +100,7 @@ func GenSQL(t *rapid.T, o *SQLOpts) *Spec {
 	// payload generator writes into other.go
 	sg.g = &gen{t: t, spec: sg.spec, names: map[string]map[string]bool{}, o: &Opts{
 		Avoid: o.Avoid, OnExclude: o.OnExclude, OnClass: o.OnClass,
-		Unions: 1, FixedArrays: true, Maps: true, Times: true, JSONSafe: true, NoIgnoreTag: true,
+		Unions: 1, FixedArrays: true, Maps: true, Times: true, JSONSafe: true, NoIgnoreTag: true, NoValuerNames: true,
 	}}
 
 	nTables := rapid.IntRange(1, o.MaxTables).Draw(t, "nTables")
